@@ -4,6 +4,7 @@ import (
 	"bytes"
 	"fmt"
 	"github.com/rigochain/rigo-go/libs"
+	"github.com/rigochain/rigo-go/libs/verifhook"
 	"github.com/rigochain/rigo-go/types"
 	abytes "github.com/rigochain/rigo-go/types/bytes"
 	"github.com/rigochain/rigo-go/types/xerrors"
@@ -456,6 +457,7 @@ func (pv *SFilePV) saveSigned(height int64, round int32, step int8,
 	pv.LastSignState.Signature = sig
 	pv.LastSignState.SignBytes = signBytes
 	pv.LastSignState.Save()
+	verifhook.SignerPersisted()
 }
 
 //-----------------------------------------------------------------------------------------
